@@ -55,6 +55,7 @@ def menus():
         ("unknown", ["sha", "sha512"], OUT), ("case", ["SHA"], OUT))
     dim("keyExchangeNames", ("rsa", ["rsa"], IN),
         ("ecdhe", ["ecdhe_rsa", "ecdhe_ecdsa"], IN),
+        ("dhe", ["dhe_rsa", "dhe_dsa"], IN),
         ("rev", ["dhe_dsa", "dh_anon", "ecdh_anon", "srp_sha_rsa", "srp_sha",
                  "ecdhe_rsa", "dhe_rsa", "rsa", "ecdhe_ecdsa"], IN),
         ("unknown", ["rsa", "dh_rsa"], OUT), ("case", ["RSA"], OUT))
@@ -450,7 +451,10 @@ def sig_ok(cst, sst, cred, version):
         if version == (3, 4):
             return bool([h for h in hs if h in ("sha256", "sha384",
                                                 "sha512")]) and "pss" in sch
-        return bool(hs) and bool(sch)
+        # PSS exists for SHA-256 and up only
+        return ("pkcs1" in sch and bool(hs)) or (
+            "pss" in sch and bool([h for h in hs if h in (
+                "sha256", "sha384", "sha512")]))
     if cred == "rsapss":
         hs = [h for h in both("rsaSigHashes") if h in ("sha256", "sha384",
                                                         "sha512")]
@@ -595,6 +599,11 @@ def _demand_at(cst, sst, cred, V):
         if k.startswith("dhe"):
             if not (cst.minKeySize <= 2048 <= cst.maxKeySize):
                 return False, "dh size"
+            # RFC 7919: a client that lists FFDHE groups gets DHE only
+            # with one of them; one that lists none gets the server's own
+            if cst.dhGroups and not [g for g in cst.dhGroups
+                                     if g in sst.dhGroups]:
+                return False, "no common ffdhe group"
     for st in (cst, sst):
         if not (st.minKeySize <= 1024 and st.maxKeySize >= 2048):
             return False, "key size policy may exclude fixture/dh sizes"
@@ -696,6 +705,21 @@ def run_connection(res, tier, seed):
             for a in singles:
                 for b in singles:
                     items.append((cred, a, b, seed))
+    # the same cross from a second base point: both sides limited to TLS 1.2
+    # (the default pair always lands in TLS 1.3, which leaves the TLS <= 1.2
+    # paths of most dimensions unexplored)
+    m12 = ("maxVersion", [v for v in dict(M)["maxVersion"]
+                          if v[1] == (3, 3)][0])
+    for cred in creds:
+        for a in singles:
+            for b in singles:
+                if (a and a[0][0] == "maxVersion") or \
+                        (b and b[0][0] == "maxVersion"):
+                    continue
+                if cred != "rsa" and a and b and a[0][0] != b[0][0] and \
+                        tier == "quick":
+                    continue
+                items.append((cred, a + (m12,), b + (m12,), seed))
     # two changed dimensions on one side (the other side at its defaults)
     doubles = []
     flat = [(attr, v) for attr, vals in M for v in vals]
@@ -756,7 +780,8 @@ def run(res, tier, seed):
         "validation: every HandshakeSettings reachable from the defaults by "
         "changing <=d dimensions (d=2 quick, 3 thorough) to a menu value "
         "(in-domain and out-of-domain menus); connection: every pair of "
-        "validated settings with <=1 in-domain change per side, and with 2 "
+        "validated settings with <=1 in-domain change per side (from the "
+        "defaults, and from both sides limited to TLS 1.2), and with 2 "
         "changes on one side against the defaults, x credential; "
         "a case is distinct by its change list; non-trivial = at least one "
         "dimension changed")
